@@ -25,4 +25,4 @@ Definition bpt_params_ok : bool :=
   && (BPT_LEAF_HEADER_SIZE + 4 * (BPT_KEY_SIZE_PREFIX + BPT_VALUE_SIZE_PREFIX + BPT_LEAF_MAX_LOCAL + BPT_OVERFLOW_PTR_SIZE) <=? BPT_PAGE_SIZE)
   && (BPT_INTERNAL_HEADER_SIZE + BPT_CHILD_PTR_SIZE + 4 * (BPT_KEY_SIZE_PREFIX + BPT_INT_MAX_LOCAL + BPT_OVERFLOW_PTR_SIZE + BPT_CHILD_PTR_SIZE) <=? BPT_PAGE_SIZE)
   && (BPT_TRUNK_FULL_CMP 3 3) && (BPT_TRUNK_FULL_CMP 3 4) && negb (BPT_TRUNK_FULL_CMP 4 3)
-  && BPT_RANGE_EMPTY_START_IS_UNBOUNDED.
+  && negb BPT_RANGE_EMPTY_START_IS_UNBOUNDED.
